@@ -294,6 +294,30 @@ def faults():
         m.k = L()(a=m.s2, b=m.j.b)
         return m
     yield ("noconn/chain-referenced", nc_shared_ref)
+    # ... at the far end of a chain of three ports, for every order in which the instances are declared and the links made,
+    #     and every position of the no-connect in the chain
+    import itertools as _it
+    for order in _it.permutations(range(3)):
+        for links in _it.permutations(range(3)):
+            for nc_at in range(3):
+                def nc_chain(order=order, links=links, nc_at=nc_at):
+                    m = base()
+                    insts = {}
+                    for k in order:
+                        insts[k] = m.add(L()(a=m.s2), name=f"c{k}")
+                    # chain: c0.b <- c1.b <- c2.b, one of the three tied to a no-connect as well / instead
+                    todo = {0: lambda: insts[0].connect("b", insts[1].b), 1: lambda: insts[1].connect("b", insts[2].b),
+                            2: lambda: insts[nc_at].connect("b", h.NoConn()) if nc_at == 2 else
+                            (insts[2].connect("b", m.s1), insts[nc_at].connect("b", h.NoConn()))}
+                    if nc_at != 2:
+                        # the no-connect REPLACES that port's link: make the remaining chain refer to the no-connected port
+                        todo = {0: lambda: insts[(nc_at + 1) % 3].connect("b", insts[nc_at].b),
+                                1: lambda: insts[(nc_at + 2) % 3].connect("b", insts[(nc_at + 1) % 3].b),
+                                2: lambda: insts[nc_at].connect("b", h.NoConn())}
+                    for k in links:
+                        todo[k]()
+                    return m
+                yield (f"noconn/chain3/{order}/{links}/nc{nc_at}", nc_chain)
     # ... referenced only through a concatenation / a slice of the port reference (never in the port-reference group)
     for how in ("concat", "slice", "concat-of-slice"):
         def nc_derived(how=how):
@@ -504,7 +528,7 @@ class NotAFault(Exception):
 
 def fault_cases():
     for desc, build in faults():
-        for site, b in sites(build, wrapfree=desc.startswith(("index/empty[", "late/"))):
+        for site, b in sites(build, wrapfree=desc.startswith(("index/empty[", "late/", "noconn/chain3/"))):
             for entry in ("to_proto", "elaborate", "netlist"):
                 yield (f"{desc}@{site}", entry, b)
 
